@@ -77,7 +77,8 @@ struct MqttSharedQueues {
     inflight: VecDeque<(num::NonZeroU16, Option<pool::Sender<Ack>>, AckType)>,
     inflight_ids: HashSet<num::NonZeroU16>,
     waiters: VecDeque<pool::Sender<()>>,
-    rx: Option<pool::Receiver<Ack>>,
+    /// `QoS 2` exchanges with PUBREC received and PUBREL not sent yet
+    received: usize,
 }
 
 impl MqttShared {
@@ -97,7 +98,7 @@ impl MqttShared {
                 inflight: VecDeque::with_capacity(8),
                 inflight_ids: HashSet::default(),
                 waiters: VecDeque::new(),
-                rx: None,
+                received: 0,
             }),
             inflight_idx: Cell::new(0),
             encode_error: Cell::new(None),
@@ -163,7 +164,8 @@ impl MqttShared {
     }
 
     pub(super) fn credit(&self) -> usize {
-        self.cap.get().saturating_sub(self.queues.borrow().inflight.len())
+        let queues = self.queues.borrow();
+        self.cap.get().saturating_sub(queues.inflight.len() + queues.received)
     }
 
     pub(super) fn next_id(&self) -> num::NonZeroU16 {
@@ -251,6 +253,7 @@ impl MqttShared {
     fn clear_queues(&self) {
         let mut queues = self.queues.borrow_mut();
         queues.waiters.clear();
+        queues.received = 0;
 
         if let Some(cb) = self.on_publish_ack.take() {
             for (idx, tx, _) in queues.inflight.drain(..) {
@@ -283,8 +286,9 @@ impl MqttShared {
 
         // check if there are waiters
         let mut queues = self.queues.borrow_mut();
-        if queues.inflight.len() < self.cap.get() {
-            let mut num = self.cap.get() - queues.inflight.len();
+        let used = queues.inflight.len() + queues.received;
+        if used < self.cap.get() {
+            let mut num = self.cap.get() - used;
             while num > 0 {
                 if let Some(tx) = queues.waiters.pop_front() {
                     if tx.send(()).is_ok() {
@@ -351,18 +355,24 @@ impl MqttShared {
                 // get publish ack channel
                 log::trace!("Ack packet with id: {}", pkt.packet_id());
 
-                if let Some(tx) = tx {
-                    let _ = tx.send(pkt);
+                if tx.is_some_and(|tx| tx.send(pkt).is_ok()) {
+                    // sender holds the receipt now, PUBCOMP is expected
+                    // after PUBREL gets written by `release_publish()`
+                    queues.received += 1;
+                } else {
+                    // sender is gone, release publish on its behalf
+                    let _ = self.io.encode(
+                        Encoded::Packet(codec::Packet::PublishRelease { packet_id: idx }),
+                        &self.codec,
+                    );
+                    let (tx, _) = self.pool.queue.channel();
+                    queues.inflight.push_back((idx, Some(tx), AckType::Complete));
                 }
-                let (tx, rx) = self.pool.queue.channel();
-                queues.rx = Some(rx);
-                queues.inflight.push_back((idx, Some(tx), AckType::Complete));
                 Ok(())
             } else if matches!(pkt, Ack::Complete(_)) {
                 // get publish ack channel
                 log::trace!("Ack packet with id: {}", pkt.packet_id());
                 queues.inflight_ids.remove(&pkt.packet_id());
-                queues.rx.take();
 
                 if let Some(tx) = tx {
                     let _ = tx.send(pkt);
@@ -486,7 +496,7 @@ impl MqttShared {
     pub(super) fn wait_readiness(&self) -> Option<pool::Receiver<()>> {
         let mut queues = self.queues.borrow_mut();
 
-        if queues.inflight.len() >= self.cap.get()
+        if queues.inflight.len() + queues.received >= self.cap.get()
             || self.flags.get().contains(Flags::WRB_ENABLED)
         {
             let (tx, rx) = self.pool.waiters.channel();
@@ -502,14 +512,25 @@ impl MqttShared {
         &self,
         id: num::NonZeroU16,
     ) -> Result<pool::Receiver<Ack>, SendPacketError> {
-        let Some(rx) = self.queues.borrow_mut().rx.take() else {
+        if self.is_closed() {
+            return Err(SendPacketError::Disconnected);
+        }
+        let mut queues = self.queues.borrow_mut();
+        if queues.received == 0 {
             return Err(SendPacketError::UnexpectedRelease);
-        };
+        }
+        queues.received -= 1;
+
+        // PUBCOMP is expected in the order PUBREL packets are written
         match self.io.encode(
             Encoded::Packet(codec::Packet::PublishRelease { packet_id: id }),
             &self.codec,
         ) {
-            Ok(()) => Ok(rx),
+            Ok(()) => {
+                let (tx, rx) = self.pool.queue.channel();
+                queues.inflight.push_back((id, Some(tx), AckType::Complete));
+                Ok(rx)
+            }
             Err(e) => Err(SendPacketError::Encode(e)),
         }
     }
